@@ -83,7 +83,11 @@ func C20(run *Run) {
 			opts.ForceShapes = true
 		}
 		cs, _ := GenCase(r, c, opts)
-		if c%3 == 2 { // long membership cycle and wide fan-out where the model allows them
+		scripted := c%6 == 5
+		if scripted {
+			cs = c20WideCase(c)
+		}
+		if c%3 == 2 && !scripted { // long membership cycle and wide fan-out where the model allows them
 			n := 8 + r.Intn(10)
 			for i := 0; i < n; i++ {
 				t := Tuple{O: Obj{"group", fmt.Sprintf("g%d", i)}, R: "member", U: Subj{"group", fmt.Sprintf("g%d", (i+1)%n), "member"}, Cctx: Ctx{}}
@@ -114,7 +118,11 @@ func C20(run *Run) {
 		}
 		rec.Setup(cs.SetupEv())
 		reqs := GenRequests(r, cs, 10)
-		if c%3 == 2 {
+		if scripted {
+			reqs = []Req{{O: Obj{"group", "g0"}, R: "member", U: Subj{"user", "zz", ""}}, {O: Obj{"group", "g0"}, R: "member", U: Subj{"user", "a", ""}},
+				{O: Obj{"doc", "d1"}, R: "viewer", U: Subj{"user", "a", ""}}, {O: Obj{"doc", "d1"}, R: "viewer", U: Subj{"user", "zz", ""}}, {O: Obj{"doc", "d2"}, R: "viewer", U: Subj{"user", "b", ""}}}
+		}
+		if c%3 == 2 && !scripted {
 			reqs = append(reqs, Req{O: Obj{"group", "g0"}, R: "member", U: Subj{"user", "a", ""}}, Req{O: Obj{"doc", "w1"}, R: "viewer", U: Subj{"user", "a", ""}},
 				Req{O: Obj{"doc", "w2"}, R: "viewer", U: Subj{"user", "zz", ""}})
 		}
@@ -123,8 +131,15 @@ func C20(run *Run) {
 			if cs.Model.Rel(q.O.T, q.R) == nil {
 				continue
 			}
-			for rep := 0; rep < 3; rep++ {
+			reps := 3
+			if scripted {
+				reps = 24
+			}
+			for rep := 0; rep < reps; rep++ {
 				kinds := []string{"check:server", "check:server:v2", "batch", "lo:classic", "lo:weighted", "lo:pipeline", "stream", "lu", "expand"}
+				if scripted { // the default engine with each strategy forced: wide recursive level, two-type tupleset
+					kinds = []string{"check:v1:recursive", "check:v1:weight2", "check:v1:default", "check:server"}
+				}
 				kind := kinds[r.Intn(len(kinds))]
 				if kind == "lo:pipeline" && pipelineHung {
 					kind = "lo:classic"
@@ -151,7 +166,11 @@ func C20(run *Run) {
 				switch {
 				case strings.HasPrefix(kind, "check:"):
 					e := &CheckEv{Eng: strings.TrimPrefix(kind, "check:"), O: q.O, R: q.R, U: q.U, Ctx: q.Ctx}
-					if !Watchdog(HangLimit, func() { v.Get(e.Eng).RunCheck(ctx, e, ts, mg) }) {
+					env := v.Base // forced-strategy engines run on the base environment's datastore
+					if !strings.HasPrefix(e.Eng, "v1:") {
+						env = v.Get(e.Eng)
+					}
+					if !Watchdog(HangLimit, func() { env.RunCheck(ctx, e, ts, mg) }) {
 						e.E, e.Got, e.Errk, hung = "Check", "ERR", "hang", true
 						e.Ctx, e.Ctxt = normCtx(e.Ctx), []Tuple{}
 					}
@@ -276,4 +295,31 @@ func C20(run *Run) {
 		run.Coverage["leak_goroutine_samples"] = leakSamples
 	}
 	run.Assumptions = []string{"goroutine census = goroutines whose stack is inside the engines, pools, iterators or pipeline (server background goroutines excluded)", "caches off (no background cache fills)", "memory backend"}
+}
+
+// c20WideCase: a recursive group whose first level has 40 member groups (each with one more level
+// below), and a tuple-to-userset whose tupleset admits two parent types.  The breadth-first and
+// bottom-up strategies of the default engine open many iterators at once on such data; cancelling
+// them in the middle must release all of them.
+func c20WideCase(n int) *Case {
+	this := &Rewrite{K: "this"}
+	m := &Model{
+		Types: []string{"user", "group", "folder", "team", "doc"},
+		Conds: []CondDef{},
+		Rels: []RelDef{
+			{T: "group", R: "member", Rw: this, Restr: []Restr{{T: "user"}, {T: "group", Rel: "member"}}},
+			{T: "folder", R: "viewer", Rw: this, Restr: []Restr{{T: "user"}}},
+			{T: "team", R: "viewer", Rw: this, Restr: []Restr{{T: "user"}}},
+			{T: "doc", R: "parent", Rw: this, Restr: []Restr{{T: "folder"}, {T: "team"}}},
+			{T: "doc", R: "viewer", Rw: &Rewrite{K: "ttu", TS: "parent", Rel: "viewer"}, Restr: []Restr{}},
+		},
+	}
+	var ts []Tuple
+	for i := 0; i < 40; i++ {
+		ts = append(ts, tp("group:g0", "member", fmt.Sprintf("group:h%d#member", i)), tp(fmt.Sprintf("group:h%d", i), "member", fmt.Sprintf("group:k%d#member", i)))
+	}
+	ts = append(ts, tp("group:k39", "member", "user:a"),
+		tp("doc:d1", "parent", "folder:f1"), tp("doc:d1", "parent", "team:t1"), tp("doc:d2", "parent", "team:t2"), tp("doc:d2", "parent", "folder:f2"),
+		tp("folder:f1", "viewer", "user:a"), tp("team:t1", "viewer", "user:a"), tp("team:t2", "viewer", "user:b"), tp("folder:f9", "viewer", "user:b"))
+	return &Case{N: n, Model: m, Tuples: ts}
 }
